@@ -270,6 +270,9 @@ func (vf *VFlow) walk(v ssa.Value, fl uint8, out LabelSet, seen map[string]bool,
 		}
 	case *ssa.Alloc:
 		out.add(vf.allocLabel(x), fl)
+		if vf.decoded[x] {
+			out.add("decoded:"+typeKey(x.Type().Underlying().(*types.Pointer).Elem()), fl)
+		}
 	case *ssa.Phi:
 		for _, e := range x.Edges {
 			vf.walk(e, fl, out, seen, depth+1)
@@ -460,7 +463,18 @@ func (vf *VFlow) callResult(t ssa.Value, idx int, fl uint8, out LabelSet, seen m
 		}
 		return
 	}
-	out.add(fmt.Sprintf("ext:%s#%d", shortCallee(name), idx), fl)
+	// constant string arguments are part of the leaf's name: FormValue("RelayState")
+	var cargs []string
+	for _, a := range com.Args {
+		if cs, ok := constString(a); ok {
+			cargs = append(cargs, fmt.Sprintf("%q", cs))
+		}
+	}
+	ca := ""
+	if len(cargs) > 0 {
+		ca = "(" + strings.Join(cargs, ",") + ")"
+	}
+	out.add(fmt.Sprintf("ext:%s%s#%d", shortCallee(name), ca, idx), fl)
 }
 
 // load: provenance of the value read from address a.
@@ -920,6 +934,9 @@ func matchAny(pats []string, s string) bool {
 func (r *Report) checkSources(rule, key, pos string, got LabelSet, allowed, required []string, unchanged bool) bool {
 	var bad, missing []string
 	for _, l := range got.leaves() {
+		if l == "const:zero" {
+			continue // the zero value before the first assignment
+		}
 		if !matchAny(allowed, l) {
 			bad = append(bad, l)
 		} else if unchanged && got[l]&flTransformed != 0 && !strings.HasPrefix(l, "const:") {
